@@ -47,6 +47,7 @@ class Entry:
         self.exec_const = kw.pop('exec_const', None)   # D10: ensures text for `exec const`
         self.const_proof = kw.pop('const_proof', None) # ghost block placed before the initialiser
         self.d1 = kw.pop('d1', False)   # generic D1: split or-patterns that carry a guard
+        self.hash_strip = kw.pop('hash_strip', None)   # verified pieces of a trusted function's text: excluded from its pin
         self.d8 = kw.pop('d8', False)   # generic D8: closure parameter `_` -> `_x`
         self.with_scope = kw.pop('with_scope', None)   # D17: text of context.rs holding the macro definition -> expand with_scope!
         self.mut_self = kw.pop('mut_self', False)     # generic D25: `fn f(mut self, ..)` -> `fn f(self, ..) { let mut oq3_self = self; .. }`
@@ -612,12 +613,16 @@ class Unit:
             # a trusted function's contract was written against a reviewed text: if that text changes, the
             # contract is no longer backed by anything (contracts/trusted_hashes.json, tools/trusted_hashes.py)
             import hashlib
-            hv = hashlib.sha1(normalise_code(orig_text).encode()).hexdigest()[:16]
+            pinned_text = orig_text
+            for piece_ in getattr(e, 'hash_strip', None) or []:
+                # a part of the function that IS verified (copied into a helper on this run): only the frame around it is pinned
+                pinned_text = pinned_text.replace(piece_, ' @@VERIFIED_PIECE@@ ')
+            hv = hashlib.sha1(normalise_code(pinned_text).encode()).hexdigest()[:16]
             key = '%s::%s' % (self.name, e.qualname)
             self.trusted_seen = getattr(self, 'trusted_seen', {})
             self.trusted_seen[key] = hv
             exp = _trusted_hashes().get(key)
-            if exp is not None and exp != hv and getattr(self, 'mutation', None) is None:
+            if exp is not None and exp != hv and getattr(self, 'mutation', None) is None and not os.environ.get('OQ3_TRUSTED_REGEN'):
                 raise Undecided('the text of the TRUSTED function %s (%s) changed: its assumed contract was reviewed against another text; no verdict' % (e.qualname, e.file))
         text = self._apply_rewrites(e, orig_text)
         mut = getattr(self, 'mutation', None)
